@@ -29,6 +29,7 @@ type Failure struct {
 	Case     any    `json:"case"`
 	Expected any    `json:"expected,omitempty"`
 	Actual   any    `json:"actual,omitempty"`
+	Rank     int64  `json:"rank,omitempty"` // smaller = simpler case; the simplest case per signature is kept
 }
 
 // Result of evaluating one case.
@@ -149,21 +150,22 @@ func (r *Run) Record(res Result, sample func() any) {
 		r.samples = append(r.samples, sample())
 	}
 	if res.Fail != nil {
-		r.failCount[res.Fail.Sig]++
-		if _, ok := r.failures[res.Fail.Sig]; !ok {
-			r.failures[res.Fail.Sig] = res.Fail
-		}
+		r.keep(res.Fail)
 	}
 	r.mu.Unlock()
+}
+
+func (r *Run) keep(f *Failure) {
+	r.failCount[f.Sig]++
+	if old, ok := r.failures[f.Sig]; !ok || f.Rank < old.Rank {
+		r.failures[f.Sig] = f
+	}
 }
 
 // Fail records a failure outside Record (state-space checks).
 func (r *Run) Fail(f *Failure) {
 	r.mu.Lock()
-	r.failCount[f.Sig]++
-	if _, ok := r.failures[f.Sig]; !ok {
-		r.failures[f.Sig] = f
-	}
+	r.keep(f)
 	r.mu.Unlock()
 }
 
@@ -321,7 +323,13 @@ func (r *Run) Finish() {
 	for s := range r.failures {
 		sigs = append(sigs, s)
 	}
-	sort.Strings(sigs)
+	sort.Slice(sigs, func(i, j int) bool {
+		a, b := r.failures[sigs[i]], r.failures[sigs[j]]
+		if a.Rank != b.Rank {
+			return a.Rank < b.Rank
+		}
+		return sigs[i] < sigs[j]
+	})
 	violations := 0
 	knownHits := 0
 	var lines []string
@@ -333,6 +341,9 @@ func (r *Run) Finish() {
 			continue
 		}
 		violations++
+		if violations > 8 {
+			continue // further signatures are counted in the evidence but not written out
+		}
 		path := r.writeReplay(f)
 		fmt.Printf("violation: %s: %s\n", f.Sig, f.Msg)
 		lines = append(lines, fmt.Sprintf("VIOLATION property=%s replay=%s", r.ID, path))
